@@ -247,7 +247,12 @@ class SystemBase(Parent, Entity):  # 3B00 (multi-relay)
 
     @property
     def heat_demand(self) -> float | None:  # 3150/FC
-        return self._msg_value(Code._3150, domain_id=FC, key=SZ_HEAT_DEMAND)  # type: ignore[return-value]
+        # NOTE: the most recent 3150 from the controller may be for a zone, not for FC
+        verbs = self._msgz.get(Code._3150, {})
+        msgs = [m for v in (I_, RP) if (m := verbs.get(v, {}).get(FC))]
+        return self._msg_value_msg(  # type: ignore[return-value]
+            max(msgs) if msgs else None, domain_id=FC, key=SZ_HEAT_DEMAND
+        )
 
     @property
     def is_calling_for_heat(self) -> NoReturn:
